@@ -250,7 +250,7 @@ class Valuer:
                     return l * self.inv(r)
                 if l.is_const() and r.is_const() and r.const_value() != 0 and (l.const_value() / r.const_value()).denominator == 1:
                     return P.const(l.const_value() / r.const_value())
-                return P.sym("floordiv(%s,%s)" % (l, r))
+                return P.sym("%s(%s,%s)" % ("floordiv" if isinstance(n.op, ast.FloorDiv) else "truediv", l, r))
             if isinstance(n.op, ast.Mod):
                 # Python: a % c == a - c*(a // c)
                 if any(l == a and r == c for a, c in self.facts.divides):
